@@ -496,7 +496,7 @@ func c15PingAndReserved(c *Case) {
 	kind := pick(r, []sim.Kind{sim.RawJSON, sim.RawMsgpack, sim.RawCBOR})
 	nib := pick(r, []int{1, 2, 7})
 	limit := lenOfNibble(byte(nib))
-	pings := 0
+	pings, split := 0, 0
 	panicText := c.Bubble(func() {
 		w, p0, p1, ok := c15World(c, 0)
 		if !ok {
@@ -521,7 +521,17 @@ func c15PingAndReserved(c *Case) {
 					pl[k] = byte(r.IntN(256))
 				}
 				want = append(want, pl)
-				s.SendRaw(sim.EncodeFrame(1, pl), 0)
+				fr := sim.EncodeFrame(1, pl)
+				if i%2 == 1 && len(fr) > 1 {
+					// the PING reaches the router in two pieces (segmentation): cut inside the header or the payload
+					k := 1 + r.IntN(len(fr)-1)
+					s.SendRaw(fr[:k], 0)
+					w.Wait()
+					s.SendRaw(fr[k:], 0)
+					split++
+				} else {
+					s.SendRaw(fr, 0)
+				}
 				pings++
 			}
 		}
